@@ -18,6 +18,7 @@ type c19Stage struct {
 	k       int  // number of continuation calls
 	replMsg bool // pass a new message on
 	replCtx bool // pass a new context on
+	dead    bool // the context passed on by the first continuation call is already cancelled
 	fail    bool // return its own error
 }
 
@@ -36,7 +37,7 @@ func c19CtxLabel(ctx context.Context) string {
 func c19Stages(n int) []c19Stage {
 	st := make([]c19Stage, n)
 	for i := range st {
-		st[i] = c19Stage{k: verifChoose("k", 3), replMsg: verifChoose("replMsg", 2) == 1, replCtx: verifChoose("replCtx", 2) == 1, fail: verifChoose("fail", 2) == 1}
+		st[i] = c19Stage{k: verifChoose("k", 3), replMsg: verifChoose("replMsg", 2) == 1, replCtx: verifChoose("replCtx", 2) == 1, fail: verifChoose("fail", 2) == 1, dead: verifChoose("dead", 2) == 1}
 	}
 	return st
 }
@@ -59,7 +60,11 @@ func (w *c19World) ref(i int, msg, ctx string, out *[]string) string {
 	}
 	last := "short" + id
 	for j := 0; j < s.k; j++ {
-		last = w.ref(i+1, m2, c2, out)
+		cj := c2
+		if s.dead && j == 0 {
+			cj = "x" + id
+		}
+		last = w.ref(i+1, m2, cj, out)
 		*out = append(*out, "R"+id+":"+last)
 	}
 	if s.fail {
@@ -94,7 +99,15 @@ func (w *c19World) middleware(i int) Middleware {
 		}
 		var err error = short
 		for j := 0; j < s.k; j++ {
-			_, err = next(c2, m2)
+			cj := c2
+			if s.dead && j == 0 {
+				// a spent per-attempt context: the rest of the chain still runs (the
+				// transport is the stage that may look at it)
+				cc, cancel := context.WithCancel(context.WithValue(c2, c19Key{}, "x"+id))
+				cancel()
+				cj = cc
+			}
+			_, err = next(cj, m2)
 			w.trace = append(w.trace, "R"+id+":"+w.label(err))
 		}
 		if s.fail {
